@@ -670,6 +670,71 @@ def r19_11(chk, P):
     return n
 
 
+def r19_13(chk, P, rule='R19.13'):
+    chk.rule(rule, 'a lapped time seek accepts exactly the times its plain counterparts accept: ov_time_seek, ov_time_seek_page and the '
+             'lapped time-seek worker (the file-local function that takes a time and a time-seek function pointer) are interpreted '
+             '(K4) on an open seekable single-link handle whose total time is the constant T, at the three times T-1/2, T and T+1.  '
+             'A plain seek accepts a time when one of its returns may be non-negative; the worker accepts it when its call of the '
+             'plain seek is reachable.  The three answers must agree pairwise -- the bound itself (a player parking the handle at '
+             'the end) is where `t<total` and `t<=total` part')
+    import absint
+    from absint import V, K
+    T = 10.0
+    worker = None
+    for H in P.functions():
+        if H.file.endswith('vorbisfile.c') and H.entry is not None and len(H.params) == 3 and H.params[1]['t'].strip() == 'double' \
+                and '(*)' in H.params[2]['t']:
+            worker = H
+    chk.require(worker is not None, 'the lapped time-seek worker (handle, double, seek function pointer) was not found')
+    plains = [P.need('ov_time_seek'), P.need('ov_time_seek_page')]
+
+    class H_(absint.Hooks):
+        def on_call(self, A, env, e, avals):
+            if A.ex[e]['callee'].get('d') == 'ov_time_total':
+                return V(T, T)
+            return None
+
+        def join_special(self, k, a, b):
+            return a if a == b else None
+
+    def run_at(F, t):
+        A = absint.Analyzer(P, F, hooks=H_(), param_init={F.params[1]['name']: V(t, t)}, unroll=4)
+        base = A.initial_env
+        pid = F.params[0]['id']
+
+        def init():
+            env = base()
+            env[f'v{pid}'] = V(nn=True)
+            env[f'v{pid}->ready_state'] = K(2)
+            env[f'v{pid}->seekable'] = K(1)
+            env[f'v{pid}->links'] = K(1)
+            return env
+        A.initial_env = init
+        seen = set()
+
+        def obs(A_, env, e, v):
+            nd = A_.ex[e]
+            if nd['k'] == 'call' and nd['callee'].get('param') is not None:
+                seen.add(e)
+        A.observers.append(obs)
+        A.run()
+        return A, seen
+    n = 0
+    for t, what in ((T - 0.5, 'inside'), (T, 'the-total-itself'), (T + 1, 'beyond')):
+        ans = {}
+        for F in plains:
+            A, _ = run_at(F, t)
+            chk.require(A.ret_states, f'{F.name}: no return reached at time {t}')
+            ans[F.name] = any(v is None or v.hi >= 0 for (e, env, v) in A.ret_states)
+        A, seen = run_at(worker, t)
+        ans[worker.name] = bool(seen)
+        ok = len(set(ans.values())) == 1
+        chk.ob(rule, worker.name, f'time-{what}:lapped-and-plain-agree', ok, worker.where(),
+               f'total time {T}, request {t}: accepted by ' + ', '.join(f'{k_}: {v_}' for k_, v_ in sorted(ans.items())))
+        n += 1
+    return n
+
+
 def r19_12(chk, P, rule='R19.12'):
     chk.rule(rule, 'the first page of the next link is never dropped: in vorbisfile.c, once a page fetched in the same function has been '
              'recognised as the beginning of a logical stream (true edge of ogg_page_bos on it), no end-of-file return (OV_EOF) is reachable before the '
@@ -757,6 +822,8 @@ def run(chk, P):
     r19_11(chk, P)
     chk.floor('R19.11', 3)
     r19_12(chk, P)
+    r19_13(chk, P)
+    chk.floor('R19.13', 3)
     chk.floor('R19.12', 1)
     from rules import c07
     import k3
